@@ -11,10 +11,11 @@
    and the normalised region depths, the only input of the copy-number stage, are the same in both coordinate systems.
    and the MINOR stage specification of C04 (score incl. phase term, admissibility, property clauses) is invariant under every strictly
    increasing position map (same-strand builds).
-   NOT proved: the same for the candidate filters of the two stages (their models are not transported here); beyond the hypothesis, and for the implementation as a whole, harness/c13.py decides by a two-build differential on
+   For the major stage the evidence filter and candidate selection are covered as well (C13_major_stage_same_strand).
+   NOT proved: the same for the evidence filter of the minor stage and for the major/minor filters on opposite strands; beyond the hypothesis, and for the implementation as a whole, harness/c13.py decides by a two-build differential on
    stage results and scores (shipped genes hg19/hg38, generated opposite-strand databases). *)
 From Aldy Require Import Base Consts Transport TransportProofs.
-From Aldy Require Filter MajorModel MajorSpec MajorTransportProofs Norm NormProofs MinorModel MinorSpec MinorTransportProofs.
+From Aldy Require Filter MajorModel MajorSpec MajorTransportProofs Norm NormProofs MinorModel MinorSpec MinorTransportProofs MajorStageTransportProofs.
 Open Scope Z_scope.
 
 Theorem C13_stage_equivariant : forall (tr : variant -> variant) (vars : list variant),
@@ -192,3 +193,29 @@ Example C13_minor_example :
   MinorSpec.admissible MinorSpec.witness_p a = true /\ MinorSpec.score Consts_here.here MinorSpec.witness_p false a <> None /\
   MinorModel.modes MinorSpec.witness_p <> [].
 Proof. exact MinorTransportProofs.mt_minor_example. Qed.
+
+(* ================================================================= the WHOLE major stage on two builds of one strand
+   Evidence filtering (quality filter and the two threshold filters of _filter_alleles, Filter.v), candidate selection, observed
+   copy numbers and the enumeration of admissible combinations, for an instance whose every position (allele definitions,
+   gene.mutations, position_cn, has_coverage, the Coverage table and the indel table) is moved through an injective map. ---- *)
+Theorem C13_major_filter_equivariant : forall (g : Z -> Z), (forall x y, g x = g y -> x = y) ->
+  forall (pcn pcn' : Z -> Q), (forall x, pcn' (g x) = pcn x) -> forall (p : Filter.fparams) (c : Filter.cover),
+  Filter.major_cov p pcn' (MajorStageTransportProofs.covmap g c) = MajorStageTransportProofs.covmap g (Filter.major_cov p pcn c).
+Proof. exact MajorStageTransportProofs.major_cov_tr. Qed.
+Goal True. idtac "ASSUME C13_major_filter_equivariant". Abort.
+Print Assumptions C13_major_filter_equivariant.
+
+Theorem C13_major_stage_same_strand : forall (g : Z -> Z), (forall x y, g x = g y -> x = y) ->
+  forall (c : consts) (I : MajorModel.inst),
+  Forall2 (MajorTransportProofs.comb_rel (MajorStageTransportProofs.mtr g))
+          (MajorSpec.all_combs c I) (MajorSpec.all_combs c (MajorStageTransportProofs.Imap g I)).
+Proof. exact MajorStageTransportProofs.all_combs_tr. Qed.
+Goal True. idtac "ASSUME C13_major_stage_same_strand". Abort.
+Print Assumptions C13_major_stage_same_strand.
+
+Example C13_major_stage_example :
+  length (MajorSpec.all_combs Consts_here.here MajorStageTransportProofs.mst_inst) = 3%nat /\
+  Forall2 (MajorTransportProofs.comb_rel (MajorStageTransportProofs.mtr (fun p => p + 1000)))
+          (MajorSpec.all_combs Consts_here.here MajorStageTransportProofs.mst_inst)
+          (MajorSpec.all_combs Consts_here.here (MajorStageTransportProofs.Imap (fun p => p + 1000) MajorStageTransportProofs.mst_inst)).
+Proof. exact MajorStageTransportProofs.mst_example. Qed.
